@@ -56,6 +56,8 @@ func (p *c19) Cases(tier string, emit func(interface{})) {
 		emit(c19Case{Part: "trees", Schema: sc, B: c04B(tier)})
 	}
 	emit(c19Case{Part: "lists", Schema: "base"})
+	emit(c19Case{Part: "starts", Schema: "base"})
+	emit(c19Case{Part: "starts", Schema: "multi"})
 	emit(c19Case{Part: "interleave", Schema: "base"})
 	emit(c19Case{Part: "interleave", Schema: "keys"})
 }
@@ -461,6 +463,109 @@ func c19Interleave(c c19Case, m *meta.Module, res *eng.Result, ss *sigSet) {
 	}
 }
 
+// c19Starts: the export starts at every container and list entry of a fixed tree instead of the root;
+// the document is read back into that node of a tree from which the node's content was removed.
+func c19Starts(c c19Case, m *meta.Module, res *eng.Result, ss *sigSet) {
+	doc := c18Inits["two"]
+	if c.Schema == "multi" {
+		doc = `{"c":{"own":"a","impx":"b","impy":{"impz":"c","aug2":"d"},"in":{"imp2":"e","own2":"f"},"aug1":"g","sa":"h"},
+		  "l":[{"k":"a","imp2":"i","lc":{"impx":"j"}},{"k":"b"}],"imptop":{"impt":"k","impl":[{"impk":"a","impv":"l"}]},"sc":{"sl":"m","imp2":"n","aug3":"o"}}`
+	}
+	t, err := model.FromJSON(m.DataDefinitions(), []byte(doc))
+	if err != nil {
+		panic(err)
+	}
+	var starts []string
+	startsOf(m.DataDefinitions(), t, "", &starts)
+	modOf := model.ModuleOf[m.Ident()]
+	for _, start := range starts {
+		ep := entryPoint{start}
+		kind := ep.kind(m)
+		if kind == "list" {
+			continue // a list is a sequence of elements, not one: no single-root document can hold it
+		}
+		for _, w := range c19Writers {
+			res.Evals++
+			res.Transitions++
+			res.Nontriv++
+			res.States++
+			site := fmt.Sprintf("C19/%s/start-at-%s:%s", w, kind, c.Schema)
+			if modOf != nil {
+				def := ep.def(m)
+				site += "/defined-by-" + modOf(def.Ident())
+			}
+			desc := fmt.Sprintf("export from %q", start)
+			env := newEnv(c.Schema, "ref")
+			if err := env.populate(t); err != nil {
+				panic(err)
+			}
+			var text string
+			var werr error
+			fr, msg, pan := eng.Recover(func() {
+				var sel *node.Selection
+				if sel, werr = env.b.Root().Find(start); werr == nil && sel != nil {
+					text, werr = c19Write(sel, w)
+				}
+			})
+			switch {
+			case pan:
+				ss.add(site+"/write-panic:"+fr, desc+": "+msg)
+				continue
+			case werr != nil:
+				ss.add(site+"/write-error", desc+": "+werr.Error())
+				continue
+			}
+			if sym := wellFormed(text); sym != "" {
+				ss.add(site+"/"+sym, desc+": "+text)
+				continue
+			}
+			// read back into a tree whose node at start is emptied (a list entry keeps its keys)
+			emptied := t.Clone()
+			et, _ := ep.locate(m, emptied)
+			keep := map[string]bool{}
+			if lm, isList := ep.def(m).(*meta.List); isList {
+				for _, km := range lm.KeyMeta() {
+					keep[km.Ident()] = true
+				}
+			}
+			for id := range et.Leaves {
+				if !keep[id] {
+					delete(et.Leaves, id)
+				}
+			}
+			et.Conts, et.Lists = map[string]*model.Tree{}, map[string]*model.List{}
+			env2 := newEnv(c.Schema, "ref")
+			if err := env2.populate(emptied); err != nil {
+				panic(err)
+			}
+			var rerr error
+			fr, msg, pan = eng.Recover(func() {
+				var n node.Node
+				if n, rerr = nodeutil.ReadXMLDoc(strings.NewReader(text)); rerr != nil {
+					return
+				}
+				var sel *node.Selection
+				if sel, rerr = env2.b.Root().Find(start); rerr == nil && sel != nil {
+					rerr = sel.UpsertFrom(n)
+				}
+			})
+			switch {
+			case pan:
+				ss.add(site+"/read-panic:"+fr, desc+": "+msg+" text="+text)
+				continue
+			case rerr != nil:
+				ss.add(site+"/read-error", fmt.Sprintf("%s: %v text=%s", desc, rerr, text))
+				continue
+			}
+			back := env2.snap()
+			model.StripDefaults(m.DataDefinitions(), t, back)
+			if kd, wd := model.Diff(m.DataDefinitions(), t, back, model.CanonOpts{}, ""); kd != "" {
+				ss.add(site+"/roundtrip/"+kd, fmt.Sprintf("%s: %s text=%s", desc, wd, text))
+			}
+		}
+	}
+}
+
 func (p *c19) Run(raw json.RawMessage) eng.Result {
 	var c c19Case
 	decode(raw, &c)
@@ -514,6 +619,9 @@ func (p *c19) Run(raw json.RawMessage) eng.Result {
 			c19Check(c, m, t, "tree "+t.String(), "tree:"+c.Schema, c19Writers, &res, ss)
 		}
 		res.Outcomes = []string{"trees:" + c.Schema}
+	case "starts":
+		c19Starts(c, m, &res, ss)
+		res.Outcomes = []string{"starts:" + c.Schema}
 	case "lists":
 		for _, t := range longListTrees(m) {
 			c19Check(c, m, t, "tree "+t.String(), "tree:"+c.Schema, c19Writers, &res, ss)
